@@ -610,6 +610,10 @@ def gen_cases_c04(tier):
         for tw in c04_twins(tier):
             if tw.startswith("Q:"):
                 keys.append(dict(k, twin=tw, depth=2, tol="tight"))
+                # time partitions: a span of strain 1 in 1, 2 and 5 updates, per flow
+                keys.append(dict(k, twin=tw, depth=0, tol="tight", chain=1))
+            else:
+                keys.append(dict(k, twin=tw, depth=0, chain=1))
     return keys
 
 
@@ -689,7 +693,13 @@ def run_case_c04(key):
         if not np.array_equal(a.orientations[-1], a.orientations[-2]):
             res["nontrivial"].append(canon(child))
 
-    obs = twin_explore(res, key, prm, prm, root, STEP_LETTERS, key["depth"], flow, fb_, lambda t: t, compare, solver_kw=solver_kw)
+    if key.get("chain"):
+        obs = []
+        for fl in ("ss_xz", "gen", "time", "pos"):
+            for kparts in (1, 2, 5):
+                obs += twin_explore(res, key, prm, prm, root.clone(), [(fl, 1.0 / kparts)], kparts, flow, fb_, lambda t: t, compare, solver_kw=solver_kw)
+    else:
+        obs = twin_explore(res, key, prm, prm, root, STEP_LETTERS, key["depth"], flow, fb_, lambda t: t, compare, solver_kw=solver_kw)
     res["outcomes"] += obs[:40]
     res["obs"] = digest(*obs)
     res["sample"] = {"case": key, "states": res["states"], "transitions": res["trans"]}
